@@ -81,8 +81,59 @@ func (m mcfg) hasReq() bool {
 	return false
 }
 
+// fixFlag[constant] = TRUE when every finding that names the deviation is recorded as fixed in
+// known_findings.d/C20.json: the "current tree" configurations (model check, export, trace
+// validation, explanation of observations) model repaired deviations as repaired and open ones as
+// they are.
+var devKey = map[string]string{
+	"other-key":     "multi-resolver-from-first-rep",
+	"first-invalid": "multi-invalid-first-rep-fails-group",
+	"short":         "multi-short-result-null-without-error",
+	"nil-requires":  "multi-nil-entity-requires-panic-loses-rest",
+	"bad-requires":  "multi-malformed-requires-loses-rest",
+}
+
+var devConst = map[string]string{"other-key": "FixFirstRep", "first-invalid": "FixFirstRep", "short": "FixShort",
+	"nil-requires": "FixNilReq", "bad-requires": "FixBadReq"}
+
+var fixFlag = map[string]bool{}
+
+func loadFixFlags() {
+	status := map[string]string{}
+	for _, k := range vlib.LoadKnown("C20") {
+		status[k.Key] = k.Status
+	}
+	for _, c := range devConst {
+		fixFlag[c] = true
+	}
+	for dev, key := range devKey {
+		if status[key] != "fixed" {
+			fixFlag[devConst[dev]] = false // open (or unlisted): the deviation is modelled as present
+		}
+	}
+}
+
+func fixDesc() string {
+	var out []string
+	for _, c := range []string{"FixFirstRep", "FixShort", "FixNilReq", "FixBadReq"} {
+		out = append(out, fmt.Sprintf("%s=%v", c, fixFlag[c]))
+	}
+	return strings.Join(out, " ")
+}
+
+// currentFix rewrites the Fix* constants of a "current tree" configuration.
+func currentFix(cfg string) string {
+	for c, v := range fixFlag {
+		if v {
+			cfg = strings.Replace(cfg, c+" = FALSE", c+" = TRUE", 1)
+		}
+	}
+	return cfg
+}
+
 func (m mcfg) edit(inline bool) func(string) string {
 	return func(cfg string) string {
+		cfg = currentFix(cfg) // no-op for the all-repaired configuration; the others follow the findings' status
 		q := make([]string, len(m.Alphabet))
 		for i, k := range m.Alphabet {
 			q[i] = strconv.Quote(k)
@@ -199,6 +250,7 @@ type emitted struct {
 	Units  int               `json:"units"`
 	MayErr bool              `json:"mayerr"`
 	Devs   []string          `json:"devs"`
+	Cls    []string          `json:"cls"`
 	Inline bool              `json:"inline"`
 	Cfg    string            `json:"cfg"`
 }
@@ -569,14 +621,6 @@ func observe(s *vlib.Scenario, kinds []string, dup []int) (*observed, string) {
 	return o, ""
 }
 
-var devKey = map[string]string{
-	"other-key":     "multi-resolver-from-first-rep",
-	"first-invalid": "multi-invalid-first-rep-fails-group",
-	"short":         "multi-short-result-null-without-error",
-	"nil-requires":  "multi-nil-entity-requires-panic-loses-rest",
-	"bad-requires":  "multi-malformed-requires-loses-rest",
-}
-
 // judge compares the observation with the property's prescription (ideal) and with the model of
 // the pinned tree; returns (violation key, detail) or "".
 func judge(j *job, o *observed) (string, string) {
@@ -643,15 +687,35 @@ func judge(j *job, o *observed) (string, string) {
 	desc := func() string {
 		rb, _ := json.Marshal(j.S.Vars["reps"])
 		pb, _ := json.Marshal(j.S.Plan)
-		return fmt.Sprintf("variant=%s representations=%s plan=%s release order=%v\nobserved list=%+v errors=%d recovers=%d\nmodel of the pinned tree: list=%+v errors=%d recovers=%d; property: %s",
+		return fmt.Sprintf("variant=%s representations=%s plan=%s release order=%v\nobserved list=%+v errors=%d recovers=%d\nmodel of the current tree ("+fixDesc()+"): list=%+v errors=%d recovers=%d; property: %s",
 			j.Variant, rb, pb, j.S.Order, o.List, o.Errs, o.Recs, e.List, e.Errs, e.Recs, strings.Join(bad, "; "))
 	}
 	if len(bad) > 0 {
 		if len(e.Devs) > 0 && same {
-			// a named deviation of the pinned tree, reproduced exactly as modelled
+			// open deviation(s) of the current tree, reproduced exactly as modelled
 			ds := append([]string{}, e.Devs...)
 			sort.Strings(ds)
-			return devKey[ds[0]], desc()
+			keys := []string{}
+			for _, d := range ds {
+				keys = append(keys, devKey[d])
+			}
+			return strings.Join(keys, "+"), desc()
+		}
+		// not what the model of the current tree does. If the scenario lies in a deviation class
+		// that is recorded as fixed, this is that deviation again: report it under its old key.
+		open := map[string]bool{}
+		for _, d := range e.Devs {
+			open[d] = true
+		}
+		var back []string
+		for _, d := range e.Cls {
+			if !open[d] && fixFlag[devConst[d]] {
+				back = append(back, devKey[d])
+			}
+		}
+		if len(back) > 0 {
+			sort.Strings(back)
+			return back[0], "REGRESSION of a deviation recorded as fixed. " + desc()
 		}
 		kinds := append([]string{}, e.Reps...)
 		return "entities|" + cls + "|" + strings.Join(kinds, ","), desc()
@@ -744,6 +808,8 @@ func runMC(c *vlib.Check, m mcfg, cfg string, inline bool, workers int, wantOK b
 
 func main() {
 	c := vlib.NewCheck("C20", "model_checking")
+	loadFixFlags()
+	c.Set("model_of_current_tree", fixDesc()+" (from the status of the findings in known_findings.d/C20.json)")
 	thorough := vlib.Tier() == "thorough"
 	seed := vlib.Seed()
 
@@ -847,11 +913,13 @@ func main() {
 		}
 	}
 	// the pinned algorithm against the property itself must fail (regression of the specification)
-	cex := runMC(c, mcfg{"cex", []string{"Mid", "Malt"}, 2, 1, false}, "MC_Entities_cex.cfg", true, 1, false)
-	if cex.OK || !strings.Contains(cex.Output, "Invariant Correct is violated") {
-		vlib.Infra("MC_Entities_cex: the pinned model no longer violates Correct (specification changed?)\n%s", cex.Violation)
+	if !fixFlag["FixFirstRep"] {
+		cex := runMC(c, mcfg{"cex", []string{"Mid", "Malt"}, 2, 1, false}, "MC_Entities_cex.cfg", true, 1, false)
+		if cex.OK || !strings.Contains(cex.Output, "Invariant Correct is violated") {
+			vlib.Infra("MC_Entities_cex: the model of the current tree no longer violates Correct although findings are open (specification changed?)\n%s", cex.Violation)
+		}
+		c.Set("tlc_counterexample_on_current_model", "Invariant Correct violated for reps <<Mid, Malt>> (resolver of reps[0] used for the whole batch group)")
 	}
-	c.Set("tlc_counterexample_on_pinned_model", "Invariant Correct violated for reps <<Mid, Malt>> (resolver of reps[0] used for the whole batch group)")
 
 	// 3. (A) replay on every variant
 	jobsByID := map[string]*job{}
@@ -1298,7 +1366,9 @@ func evaluate(c *vlib.Check, j *job, bin string, drift *int) bool {
 		return false
 	}
 	if key, detail := judge(j, o); key != "" {
-		c.Violate(key, detail, j)
+		for _, k := range strings.Split(key, "+") {
+			c.Violate(k, detail, j)
+		}
 	}
 	if j.Dup == nil {
 		// non-vacuity of the schedule: did the calls return in the prescribed order?
